@@ -1,8 +1,8 @@
 package drv
 
 import (
-	"hash/fnv"
 	"strconv"
+	"sync"
 
 	"github.com/avfs/avfs"
 	"github.com/avfs/avfs/vfs/basepathfs"
@@ -89,7 +89,7 @@ func (s *Session) Step(tr string, i int, c Call, names []string) Event {
 	s.quiet = true
 	snap := s.Project(names)
 	s.quiet = false
-	ev := Event{Tr: tr, I: i, Fs: s.Target, Call: c, Res: res, Post: snap.Post, Hs: snap.Hs, Cwd: snap.Cwd, Srt: snap.Srt, Inv: "ok", Cons: cons, Leak: leak}
+	ev := Event{Tr: tr, I: i, Fs: s.Target, Call: c, Res: res, Post: snap.Post, Hs: snap.Hs, Cwd: snap.Cwd, Srt: snap.Srt, Inv: "ok", Cons: cons, Leak: leak, Um: s.baseUmask()}
 
 	if ev.Cwd.Parts == nil {
 		ev.Cwd.Parts = []string{}
@@ -138,6 +138,14 @@ func sameSeq(a, b []string) bool {
 	return true
 }
 
+func (s *Session) baseUmask() int {
+	if s.Target == "osfs" {
+		return -1
+	}
+
+	return int(s.base().UMask())
+}
+
 func permClass(e string) bool { return e == "EACCES" || e == "EPERM" }
 
 // WrapWith puts a wrapper around the session's file system; calls go through the wrapper from now on
@@ -149,6 +157,17 @@ func (s *Session) WrapWith(tr string, i int, kind string, names []string) Event 
 	switch {
 	case kind == "rofs":
 		s.FS = rofs.New(s.Base)
+	case strings.HasPrefix(kind, "sub:"):
+		// a Sub view of the base at the given directory
+		s.Wrap = "sub"
+		s.SubDir = strings.TrimPrefix(kind, "sub:")
+
+		sub, err := s.Base.Sub(s.SubDir)
+		if err != nil {
+			s.Dead = true
+		} else {
+			s.FS = sub
+		}
 	case kind == "basepath":
 		s.BasePath = "/" + WorkDir + "/B"
 		s.FS = basepathfs.New(s.Base, s.BasePath)
@@ -185,6 +204,11 @@ func (s *Session) WrapWith(tr string, i int, kind string, names []string) Event 
 	}
 
 	c := Call{Op: "wrap", Flag: []string{kind}}
+	if s.Wrap == "sub" {
+		c.Flag = []string{"sub"}
+		c.P = ParsePath(s.SubDir)
+	}
+
 	if strings.HasPrefix(kind, "failfs") {
 		c.Flag = []string{"failfs"}
 		s.Wrap = "failfs"
@@ -199,7 +223,7 @@ func (s *Session) WrapWith(tr string, i int, kind string, names []string) Event 
 	snap := s.Project(names)
 
 	return Event{Tr: tr, I: i, Fs: s.Target, Call: c, Res: NewRes("ok"), Post: snap.Post, Hs: snap.Hs, Cwd: snap.Cwd,
-		Srt: snap.Srt, Inv: "ok", Mt: s.MtimeDigest(), Cons: []string{}}
+		Srt: snap.Srt, Inv: "ok", Mt: s.MtimeDigest(), Cons: []string{}, Um: s.baseUmask()}
 }
 
 // BuildCalls returns elementary calls (mkdir, writefile, link, symlink, chown, chmod on fresh names)
@@ -346,12 +370,11 @@ func Applicable(target string, c Call) bool {
 
 // ReplayEdges reads TLC edges, replays the shard's share against fresh sessions and writes one
 // EdgeResult line for every edge that did not conform.
-func ReplayEdges(f *Factory, in io.ReadSeeker, out io.Writer, shard, nshard int, names []string) (ReplayStats, error) {
-	var st ReplayStats
-
-	// Lines are assigned to shards by the key (wrapper, histories, call) so that a transition and the lines
-	// carrying its alternative outcomes meet in the same process. First pass: collect the alternatives.
-	alts := map[string][]Alt{}
+func ReplayEdges(f *Factory, in io.ReadSeeker, out io.Writer, shard, nshard int, names []string, workers int) (ReplayStats, error) {
+	var (
+		st ReplayStats
+		mu sync.Mutex
+	)
 
 	keyOf := func(e *Edge) string {
 		b, _ := json.Marshal([]any{e.Wrap, e.Hist, e.Wh, e.Call})
@@ -359,112 +382,143 @@ func ReplayEdges(f *Factory, in io.ReadSeeker, out io.Writer, shard, nshard int,
 		return string(b)
 	}
 
-	mine := func(k string) bool {
-		h := fnv.New32a()
-		_, _ = h.Write([]byte(k))
-
-		return int(h.Sum32()%uint32(nshard)) == shard
-	}
-
-	for pass := 0; pass < 2; pass++ {
+	// pass over the file with a pool of decoding workers; fn is called concurrently
+	scan := func(fn func(idx int, e *Edge)) error {
 		if _, err := in.Seek(0, io.SeekStart); err != nil {
-			return st, err
+			return err
+		}
+
+		type item struct {
+			idx  int
+			line []byte
+		}
+
+		ch := make(chan item, 4*workers)
+
+		var wg sync.WaitGroup
+
+		for w := 0; w < workers; w++ {
+			wg.Add(1)
+
+			go func() {
+				defer wg.Done()
+
+				for it := range ch {
+					var e Edge
+					if err := DecodeTLC(it.line, &e); err != nil {
+						// a line damaged by concurrent appends of TLC workers (only lines above 8 KiB can be)
+						mu.Lock()
+						st.Corrupt++
+						mu.Unlock()
+
+						continue
+					}
+
+					fn(it.idx, &e)
+				}
+			}()
 		}
 
 		sc := bufio.NewScanner(in)
 		sc.Buffer(make([]byte, 1<<20), 1<<28)
 
-		var w *bufio.Writer
-
-		var enc *json.Encoder
-
-		if pass == 1 {
-			w = bufio.NewWriter(out)
-			enc = json.NewEncoder(w)
-		}
-
 		idx := -1
-
 		for sc.Scan() {
 			idx++
-
-			var e Edge
-			if err := DecodeTLC(sc.Bytes(), &e); err != nil {
-				// a line damaged by concurrent appends of TLC workers (only lines above 8 KiB can be)
-				if pass == 0 {
-					st.Corrupt++
-				}
-
-				continue
-			}
-
-			k := keyOf(&e)
-			if !mine(k) {
-				continue
-			}
-
-			if pass == 0 {
-				if e.T == "alt" && e.Alt != nil {
-					alts[k] = append(alts[k], *e.Alt)
-				}
-
-				continue
-			}
-
-			if e.T == "alt" {
-				continue
-			}
-
-			e.Alts = alts[k]
-			st.Edges++
-
-			r, err := f.replayEdge(idx, &e, names)
-			if err != nil {
-				return st, err
-			}
-
-			switch r.Status {
-			case "explained":
-				st.Explained++
-
-				if st.Kf == nil {
-					st.Kf = map[string]int{}
-				}
-
-				st.Kf[r.Kf]++
-			case "ok":
-				st.OK++
-			case "mismatch":
-				st.Mismatch++
-			case "unreach":
-				st.Unreach++
-			case "skip":
-				st.Skipped++
-			}
-
-			if r.How == "built" {
-				st.Built++
-			}
-
-			if r.Status == "mismatch" || r.Status == "unreach" {
-				if err := enc.Encode(r); err != nil {
-					return st, err
-				}
-			}
+			ch <- item{idx: idx, line: append([]byte(nil), sc.Bytes()...)}
 		}
 
-		if err := sc.Err(); err != nil {
+		close(ch)
+		wg.Wait()
+
+		return sc.Err()
+	}
+
+	// First pass: the alternative outcomes (deviation catalogue) of the transitions, by key.
+	alts := map[string][]Alt{}
+
+	if f.Target != "osfs" {
+		if err := scan(func(_ int, e *Edge) {
+			if e.T == "alt" && e.Alt != nil && e.Alt.Impl == f.Target {
+				k := keyOf(e)
+				mu.Lock()
+				alts[k] = append(alts[k], *e.Alt)
+				mu.Unlock()
+			}
+		}); err != nil {
 			return st, err
 		}
 
-		if w != nil {
-			if err := w.Flush(); err != nil {
-				return st, err
-			}
-		}
+		st.Corrupt = 0
 	}
 
-	return st, nil
+	w := bufio.NewWriter(out)
+	enc := json.NewEncoder(w)
+
+	var firstErr error
+
+	err := scan(func(idx int, e *Edge) {
+		if e.T == "alt" || idx%nshard != shard {
+			return
+		}
+
+		if len(alts) > 0 {
+			e.Alts = alts[keyOf(e)]
+		}
+
+		r, err := f.replayEdge(idx, e, names)
+
+		mu.Lock()
+		defer mu.Unlock()
+
+		if err != nil {
+			if firstErr == nil {
+				firstErr = err
+			}
+
+			return
+		}
+
+		st.Edges++
+
+		switch r.Status {
+		case "explained":
+			st.Explained++
+
+			if st.Kf == nil {
+				st.Kf = map[string]int{}
+			}
+
+			st.Kf[r.Kf]++
+		case "ok":
+			st.OK++
+		case "mismatch":
+			st.Mismatch++
+		case "unreach":
+			st.Unreach++
+		case "skip":
+			st.Skipped++
+		}
+
+		if r.How == "built" {
+			st.Built++
+		}
+
+		if r.Status == "mismatch" || (r.Status == "unreach" && len(r.Trace) > 0) {
+			if err := enc.Encode(r); err != nil && firstErr == nil {
+				firstErr = err
+			}
+		}
+	})
+	if err == nil {
+		err = firstErr
+	}
+
+	if ferr := w.Flush(); err == nil {
+		err = ferr
+	}
+
+	return st, err
 }
 
 func (f *Factory) replayEdge(idx int, e *Edge, names []string) (EdgeResult, error) {
@@ -584,6 +638,9 @@ func (f *Factory) replayEdge(idx int, e *Edge, names []string) (EdgeResult, erro
 	}
 
 	okHs := e.Hs == nil || sameHs(ev.Hs, e.Hs)
+	if e.Um != nil && *e.Um != ev.Um {
+		okHs = false // the parent's umask changed
+	}
 
 	if okRes && okPost && okCwd && okInv && okHs {
 		r.Status = "ok"
